@@ -2,7 +2,7 @@ import BdModel.Cron.Parse
 /-
   Cron.Daemon — the scheduler daemon's logic as internal/scheduler/{scheduler.go,entryreader.go,job.go}
   and internal/dag/{builder.go: buildSchedule, parser.go: parseSchedules/parseScheduleMap/parseCron} implement
-  it NOW (after the fixes F8 = 3d1ee58, F9 = 2134a7a, F26 = 677265a; F10 is still there — see Props/C09.lean).
+  it NOW (after the fixes F8 = 3d1ee58, F9 = 2134a7a, F26 = 677265a, F10 = 922dee6 — see Props/C09.lean).
 
   Instants are seconds since Go's zero time (Civil.lean), so robfig's "zero time" answer is `0`.
 -/
@@ -126,11 +126,32 @@ def invoke (e : Entry) (jnext : Nat) (st : Status) : Option Act :=
 def entryAct (status : Nat → Status) (t : Nat) (e : Entry) : Option Act :=
   if invoked e.spec t then invoke e (nextTime e.spec (t - 1)) (status e.dag) else none
 
-/-- One tick.  Every invoked entry runs in its own goroutine and reads the status by itself; the
-    model gives all of them the status as it is when the tick begins (the interleaving in which every
-    goroutine reads before any of them has acted — the one behind F10). -/
-def runTick (dags : List Dag) (susp : Nat → Bool) (status : Nat → Status) (t : Nat) : List Act :=
+/-- One tick as it was before /repo 922dee6: EVERY due entry is invoked, so two start schedules of one
+    DAG firing in the same minute gave two Start calls (F10).  Kept only to state that regression. -/
+def runTickPinned (dags : List Dag) (susp : Nat → Bool) (status : Nat → Status) (t : Nat) : List Act :=
   (readEntries dags susp).filterMap (entryAct status t)
+
+/-- key of the per-tick `invoked` map of `run`: entry type + DAG location (one location per file id) -/
+def Entry.key (e : Entry) : Kind × Nat := (e.kind, e.dag)
+
+/-- the loop of `run` over the due entries with its `invoked` map (`seen` = keys already set): the first
+    due entry of each (kind, DAG) is invoked, later ones are skipped (`continue`) -/
+def dedupe : List Entry → List (Kind × Nat) → List Entry
+  | [], _ => []
+  | e :: es, seen =>
+    if e.key ∈ seen then dedupe es seen
+    else e :: dedupe es (e.key :: seen)
+
+/-- the entries that pass `IsZero → continue` and `After(now) → break`, in the order `run` meets them.
+    `run` first stable-sorts by `Next`; every due entry has `Next` = the tick itself
+    (Proofs/CronDedupe: `invoked_nextTime_eq`), so among them the sort keeps `Read`'s order. -/
+def dueEntries (dags : List Dag) (susp : Nat → Bool) (t : Nat) : List Entry :=
+  (readEntries dags susp).filter (fun e => invoked e.spec t)
+
+/-- One tick (`run`, after 922dee6).  Every invoked entry runs in its own goroutine and reads the status
+    by itself; the model gives all of them the status as it is when the tick begins. -/
+def runTick (dags : List Dag) (susp : Nat → Bool) (status : Nat → Status) (t : Nat) : List Act :=
+  (dedupe (dueEntries dags susp t) []).filterMap (entryAct status t)
 
 /-! ## loading: `buildSchedule`, `parseScheduleMap`, `parseSchedules`; `initDags`, watcher events -/
 
